@@ -239,6 +239,25 @@ pub fn c02(ctx: &mut Ctx, tier: &str, seed: u64) {
             if k.is_verbatim() != d.any_verbatim() {
                 ctx.fail("query-is-verbatim", None, format!("wq {}", hex(s)), format!("{:?}", k));
             }
+            // the documented length of the canonical spelling of the kind
+            let doc_len = match kind_of(&k) {
+                spec::Kind::Verbatim(x) => 4 + x.len(),
+                spec::Kind::VerbatimUNC(x, y) => 8 + x.len() + if y.is_empty() { 0 } else { 1 + y.len() },
+                spec::Kind::VerbatimDisk(_) => 6,
+                spec::Kind::DeviceNS(x) => 4 + x.len(),
+                spec::Kind::UNC(x, y) => 2 + x.len() + if y.is_empty() { 0 } else { 1 + y.len() },
+                spec::Kind::Disk(_) => 2,
+            };
+            if k.len() != doc_len {
+                ctx.fail("prefix-kind-len", None, format!("wq {}", hex(s)), format!("{:?}.len() = {} documented {}", k, k.len(), doc_len));
+            }
+            if let Ok(st) = std::str::from_utf8(s) {
+                let c8 = Utf8WindowsPath::new(st).components();
+                let k8 = c8.prefix_kind();
+                if k8.map(|x| (x.len(), x.is_verbatim())) != Some((doc_len, k.is_verbatim())) {
+                    ctx.fail("prefix-kind-len", None, format!("wq {}", hex(s)), format!("utf8 {:?}", k8.map(|x| x.len())));
+                }
+            }
         }
         // single-item conversions: a component from a one-component path, a prefix (component) from a
         // path that is exactly one prefix; anything else is refused
